@@ -197,4 +197,23 @@ PROPS = {
                      '(match_units iterates the lazy_static HashMap with closures); approx_eq symmetry (float division, did not finish in 500 s).'),
         technique='contract-based deductive verification: Kani complete symbolic harnesses + Verus by(compute) table lemma',
     ),
+    'C04': dict(
+        title='Zinc text conforms to the Project Haystack grammar in both directions',
+        verus=[('u_zparse', [r'^parse_str_escape$'])],
+        kani=[dict(harness='k_scanner_classes', klass='complete', schema=['u8'], family=None, target='Scanner::is_* byte classes'),
+              dict(harness='k_unit_char_class', klass='complete', schema=['u8'], family=None, target='zinc number::is_unit_char'),
+              dict(harness='k_u8_classes', klass='complete', schema=['u8'], family=None, target='u8::is_ascii_*')],
+        witness='enum:zinc-escape',
+        design_ref='DESIGN.md section 4, C04',
+        level_text=('Proof, per token class, against the Project Haystack Zinc grammar (the oracle is the grammar, not the code): Verus '
+                    'proves one clause per string escape letter of parse_str_escape (\\b U+0008, \\f U+000C, \\n, \\r, \\t, \\", \\\\, \\$) '
+                    'on the real body; Kani proves, over all 256 byte values on the real scanner methods, that every character class the '
+                    'reader uses (spaces, newlines, digits, hex digits, id/ref/symbol/unit/zone alphabets, exponent and sign sets) is '
+                    'the byte set written in the contracts.'),
+        not_decided=('The \\uXXXX clause (from_str_radix/from_utf16 have no Verus model); the keyword table of Lexer::read; number spelling '
+                     '(the string handed to str::parse::<f64>); the whole writer side (to_zinc goes through write!/core::fmt and '
+                     'enumerate() loops); Date/Time/DateTime/Coord text; whole-document layout. The unit class tests `> 128`, i.e. excludes '
+                     'byte 0x80 that the grammar admits -- harmless: no database unit contains it (C15 lemma).'),
+        technique='contract-based deductive verification: Verus per-letter postconditions on the real body + Kani complete byte-class harnesses',
+    ),
 }
